@@ -665,6 +665,50 @@ def bindings_survive_lazy_evaluation(col):
                 break
 
 
+def globals_and_spec_scope_in_less_common_places(col):
+    """(1) "S.globals persist until the top-level call returns": whichever spelling touches them first (A.globals.x, A['globals'].x,
+    S['globals']) and wherever that happens (inside the key of First / Iter().first, which is evaluated through an entry point of
+    its own; inside a list element; inside a Coalesce branch that fails afterwards), later steps read what was written, and the next
+    call starts empty.  (2) "Spec(scope=) overrides for its subtree" also when the Spec is an ARGUMENT: the value of an S() keyword,
+    a Coalesce / Or / Switch default, a T index, a Call argument"""
+    from glom import Iter, Call, Switch, Invoke
+    from glom.streaming import First
+    g_cases = [
+        ('first touched inside the key of Iter().first', [7, 8], lambda: (Iter().first((A.globals.a, A.globals.b)), {'a': S.globals.a, 'b': S.globals.b}), {'a': 7, 'b': 7}),
+        ('first touched inside the key of First', [7, 8], lambda: (First((A.globals.a, A.globals.b)), {'a': S.globals.a, 'b': S.globals.b}), {'a': 7, 'b': 7}),
+        ('written in the key of first, read in the same key later', [3, 4], lambda: (Iter().first((A.globals.seen, S.globals.seen)), T), 3),
+        ("A['globals'].x then S.globals.x", 5, lambda: (A['globals'].x, S.globals.x), 5),
+        ("A.globals.x then S['globals'].x", 5, lambda: (A.globals.x, S['globals'].x), 5),
+        ("S['globals'] before anything was written", 5, lambda: (S['globals'], lambda v: type(v).__name__), 'ScopeVars'),
+        ('written per list element, read afterwards', [1, 2, 3], lambda: ([A.globals.last], S.globals.last), 3),
+        ('written in a Coalesce branch that then fails', {'a': 1}, lambda: (Coalesce(('a', A.globals.g, T['zz']), T), S.globals.g), 1),
+        ('written in an Invoke argument spec', 4, lambda: (Invoke(lambda v: v).specs((A.globals.arg, T)), S.globals.arg), 4),
+        ('nothing left from the calls before', 5, lambda: Coalesce(S.globals.a, S.globals.x, S.globals.last, S.globals.g, default='empty'), 'empty'),
+    ]
+    s_cases = [
+        ('value of an S() keyword', None, lambda: (S(k='outer'), S(x=Spec(S.k, scope={'k': 'from-Spec'})), {'x': S.x, 'k': S.k}), {'x': 'from-Spec', 'k': 'outer'}),
+        ('Coalesce default', None, lambda: (S(k='outer'), Coalesce('zz', default=Spec(S.k, scope={'k': 'from-Spec'}))), 'from-Spec'),
+        ('Or default', None, lambda: (S(k='outer'), Match(Or(M == 'never', default=Spec(S.k, scope={'k': 'from-Spec'})))), 'from-Spec'),
+        ('Switch default', None, lambda: (S(k='outer'), Match(Switch([(M == 'never', Val(0))], default=Spec(S.k, scope={'k': 'from-Spec'})))), 'from-Spec'),
+        ('T index', {'from-Spec': 1, 'outer': 2}, lambda: (S(k='outer'), T[Spec(S.k, scope={'k': 'from-Spec'})]), 1),
+        ('Call argument', None, lambda: (S(k='outer'), Call(lambda a, b: (a, b), args=(Spec(S.k, scope={'k': 'from-Spec'}), S.k))), ('from-Spec', 'outer')),
+        ('inside a list literal in argument position', None, lambda: (S(k='outer'), S(x=[Spec(S.k, scope={'k': 'in-list'}), S.k]), S.x), ['in-list', 'outer']),
+        ('shadowing an outer Spec(scope=)', None, lambda: Spec((S(x=Spec(S.k, scope={'k': 'inner'})), {'x': S.x, 'k': S.k}), scope={'k': 'outer'}), {'x': 'inner', 'k': 'outer'}),
+    ]
+    for group, cases in (('globals', g_cases), ('spec-scope-as-argument', s_cases)):
+        for desc, target, mk, want in cases:
+            spec = mk()
+            for n in (1, 2):
+                got = call(G, target, spec)
+                col.case((group, desc, n), True)
+                col.count('reader_observations')
+                col.count('globals_and_spec_scope_cases')
+                if not got.ok or got.value != want:
+                    col.violation('C07/%s' % ('globals-do-not-persist-until-the-call-returns' if group == 'globals' else 'spec-scope-not-applied-to-its-subtree:argument-position'),
+                                  '%s: %s on %r (evaluation #%d): %r, expected %r' % (desc, short(spec, 200), target, n, got, want), None)
+                    break
+
+
 def literal_bindings_do_not_outlive_the_call(col):
     """S(name=<container literal>) binds a container built for THIS call: mutating it in place through the scope (A.name[key],
     S.name.append(..)) is invisible to the next evaluation of the same spec object, and to sibling evaluations of the step"""
@@ -977,6 +1021,7 @@ def run(ctx):
             spec_glom_entry(col)
             glommer_scope_is_copied(col)
             bindings_survive_lazy_evaluation(col)
+            globals_and_spec_scope_in_less_common_places(col)
             matchdict_two_keys(col, rng)
             literal_bindings_do_not_outlive_the_call(col)
             deep_shadowing(col)
